@@ -37,7 +37,7 @@ def run(ctx):
         name = cls.__name__
         st = schemes.streams(r, cls, ctx.tier)
         values, seen = [], set()
-        for k in ("grammar", "near", "small"):
+        for k in ("near", "grammar", "small"):
             for s in st.get(k, []):
                 if s in seen:
                     continue
@@ -48,6 +48,13 @@ def run(ctx):
         if len(values) > (250 if ctx.tier == "quick" else 2500):
             values = values[: (250 if ctx.tier == "quick" else 2500)]
         pairs = schemes.pairs_from(r, values, npairs) + gens.equal_variant_pairs(r, cls, values, npairs // 3)
+        # a base version against every spelling built from the words of the class's own source
+        for b, x in gens.mined_pairs(r, cls, 80 if ctx.tier == "quick" else 400):
+            try:
+                vb, vx = cls(b), cls(x)
+            except Exception:  # noqa
+                continue
+            pairs += [(vb, vx), (vx, vb)]
         nviol = 0
         for a, b in pairs:
             o = schemes.impl_pair(a, b)
